@@ -35,7 +35,7 @@ CLAIMED = {
    text="C08 histories plus a fault stream of redundant and invalid updates placed preferentially right after un-flushed updates: the update call itself must return Err (invalid) / Ok (redundant), the model is unchanged, all later answers match the unchanged model, no panic, and >= 3 fault-free queries at the end must be served (usable once faults stop).", note="as C08", ref="DESIGN.md 5/C09"),
  "C10": dict(level="exploration", technique=TECH + "encoder-object reuse histories x frameworks, CNF recorded at the SatSolver seam; per case an exhaustive 2^n refinement check against RefSem)",
    text="Weak fit, stated in DESIGN.md: the CNF is a function of (framework, encoder). The simulator contributes the recording backend at the seam the property names and the encoder-object history (one encoder object encodes 0-2 other frameworks first, as solvers do per component/query - this matters for the hybrid encoder's RefCell tables). Per case the check is exhaustive over all 2^n argument subsets in both directions, plus range reachability/exclusion, arg_to_lit injectivity and assignment_to_extension round trip; cases are sampled (all encoders incl. the two public factory functions, both sides of the hybrid threshold).", note="Frameworks <= 8 arguments with compact ids.", ref="DESIGN.md 5/C10"),
- "C11": dict(level="exploration", technique="deterministic simulation with fault injection (differential runs of one framework under several presentations, each solved under a different seeded SAT-oracle behaviour - real CaDiCaL steered by seeded assumptions; polynomial validity checks; sample through the real binaries)",
+ "C11": dict(level="exploration", technique="deterministic simulation with fault injection (differential runs of one framework under several presentations, each solved under a different seeded SAT-oracle behaviour - real CaDiCaL steered by seeded assumptions; polynomial validity checks and statuses settled by the grounded extension as absolute oracle; sample through the real binaries)",
    text="Frameworks of 20-300 arguments (no reference semantics possible) are read through the real reader in 3-5 presentations (renamed/reordered arguments, shuffled/duplicated attack lines, disjoint unions with pooled components with and without stable extension); all DC/DS/SE problems are run on each presentation under a DIFFERENT simulated SAT-backend behaviour. Statuses must coincide (with the stated ST exception), GR within ID within every returned PR extension, DC-CO = DC-PR, skeptical implies credulous when an extension exists, ST/SST/STG coincide when a stable extension exists, returned sets pass the polynomial checks. Fair fit only (see DESIGN.md): what the simulator adds is that a status depending on which model came back is caught.", note="Differential oracle; SAT-call budget per query is deterministic, over-budget queries are counted as skipped.", ref="DESIGN.md 5/C11"),
  "C12": dict(level="exploration", technique=TECH + "operation histories incl. invalid/redundant operations, set-model refinement after every step)",
    text="Seeded update histories (3-80 operations over 1-8 labels, usize and String, invalid and redundant operations included) on AAFramework, compared after EVERY operation with a trivial set model on all public observables (counts, id order, lookups, three attack iterators, grounded extension, id stability, Err for invalid operations).", note="Trusted: RefStore set model. Sampling of histories; universes of at most 8 labels.", ref="DESIGN.md 5/C12"),
@@ -47,7 +47,7 @@ CLAIMED = {
    text="Histories of add_clause/reserve/solve/solve_under_assumptions (empty, unit, tautological clauses, unused reserved variables, assumptions on unseen variables, unconstrained solve right after an assumption solve) applied in lock-step to CadicalSolver and to BufferedSatSolver over SimChild; every verdict and model is checked against a truth table (<= 12 variables), value_of must be answerable for every declared variable.", note="ExternalSatSolver = BufferedSatSolver + exec_solver; exec_solver itself is covered by C16.", ref="DESIGN.md 5/C15"),
  "C16": dict(level="exploration", technique=TECH + "argumentation workloads over the real DIMACS writer with a strict validator inside the simulated solver program; schedules of feeder thread / child / reader on a simulated process-and-pipe seam; real-OS cross-check)",
    text="Part 1: every DIMACS instance that the static and dynamic argumentation workloads hand to the external program is validated strictly (header variable and clause counts, termination, nothing else). Parts 2-3 (schedule exploration of exec_solver on the simulated pipe seam, real OS pipes) are reported under coverage.extra when built.", note="Strict DIMACS CNF reader as judge.", ref="DESIGN.md 5/C16"),
- "C17": dict(level="fault_enumeration", technique="deterministic simulation with fault injection (enumeration of SAT-call position x fault kind per sampled query, at the SatSolver trait and through the real DIMACS reply parser)",
+ "C17": dict(level="fault_enumeration", technique="deterministic simulation with fault injection (enumeration of SAT-call position x fault kind per sampled static query and per sampled update/query history on the dynamic solvers, at the SatSolver trait and through the real DIMACS reply parser; sample through the real binaries with a faulty solver program)",
    text="For each sampled query: fault-free dry run, then the query is re-run once per (SAT-call position, fault kind) with the backend failing there (Unknown at trait level; 8 reply-fault kinds through the real BufferedSatSolver parser); the query must unwind, never return a status/extension. Complete over positions x kinds per case (<= 24 positions), sampled over cases.", note="Trusted: 'unwind = abort' reading of the library contract; prefix identity with the dry run is checked by digest.", ref="DESIGN.md 5/C17"),
  "C18": dict(level="exploration", technique=TECH + "adversarial SAT-oracle policies, post-hoc check of the recorded SAT-call history against RefSem cardinalities, hard step budget)",
    text="Bounded liveness in steps (= SAT calls seen by the counting simulated backend): per solver instance calls <= the property's bound for a component, total <= sum of bounds, no candidate returned twice within one PR/ID search; a hard budget turns non-termination into a finite replayable failure. Adversarial oracle policies (MinTrue longest chains).", note="Instance-to-component attribution is conservative (max / sum of per-component bounds).", ref="DESIGN.md 5/C18"),
